@@ -16,6 +16,10 @@ type tcase struct {
 	Kind    string                    `json:"kind"` // "match" (Objects[0]) or "filter"
 	Query   *carddav.AddressBookQuery `json:"query"`
 	Objects []carddav.AddressObject   `json:"objects"`
+	// PropsTail: Query.DataRequest.Props is handed over as the prefix of a
+	// longer list (another query's) that continues with these names in the
+	// same backing array; that longer list must be intact afterwards.
+	PropsTail []string `json:"props_tail,omitempty"`
 }
 
 type witnessT struct {
@@ -105,7 +109,7 @@ func cpObject(a carddav.AddressObject) carddav.AddressObject {
 }
 
 func cpCase(tc *tcase) *tcase {
-	n := &tcase{Kind: tc.Kind, Query: cpQuery(tc.Query)}
+	n := &tcase{Kind: tc.Kind, Query: cpQuery(tc.Query), PropsTail: cpStrs(tc.PropsTail)}
 	n.Objects = make([]carddav.AddressObject, len(tc.Objects))
 	for i := range tc.Objects {
 		n.Objects[i] = cpObject(tc.Objects[i])
@@ -202,6 +206,33 @@ func eqCard(a, b vcard.Card) bool {
 	return true
 }
 
+// hasField: a key without any field is an absent property.
+func hasField(card vcard.Card, k string) bool {
+	for _, f := range card[k] {
+		if f != nil {
+			return true
+		}
+	}
+	return false
+}
+
+// eqCardProps compares cards as sets of properties: keys without any field
+// count as absent on both sides (used for returned objects; the
+// non-modification check stays strict).
+func eqCardProps(a, b vcard.Card) bool {
+	for k, v := range a {
+		if hasField(a, k) != hasField(b, k) || hasField(a, k) && !eqFields(v, b[k]) {
+			return false
+		}
+	}
+	for k := range b {
+		if hasField(b, k) && !hasField(a, k) {
+			return false
+		}
+	}
+	return true
+}
+
 func eqObject(a, b *carddav.AddressObject) bool {
 	return a.Path == b.Path && a.ETag == b.ETag && a.ContentLength == b.ContentLength &&
 		a.ModTime.Equal(b.ModTime) && eqCard(a.Card, b.Card)
@@ -221,8 +252,8 @@ type observation struct {
 	res []carddav.AddressObject
 
 	queryModified  bool
-	objectModified int // index+1 of the first modified object, 0 = none
-	sliceModified  bool
+	objectModified int    // index+1 of the first modified object, 0 = none
+	sliceModified  string // which backing array was written behind (or inside) the caller's slice
 }
 
 const sentinelPath = "/__c07_sentinel__"
@@ -236,13 +267,15 @@ func sentinel() carddav.AddressObject {
 // the copies with the pristine case afterwards.
 func run(tc *tcase) *observation {
 	o := &observation{}
-	q := cpQuery(tc.Query)
+	var guards []guard
+	q := padQuery(tc.Query, tc.PropsTail, &guards)
 	n := len(tc.Objects)
-	// Spare capacity behind the slice holds sentinels: writing there (append
-	// on the caller's slice) is a modification too.
+	// Spare capacity behind every slice holds sentinels: writing there (append
+	// on the caller's slice) is a modification too (see alias.go).
 	backing := make([]carddav.AddressObject, n+2)
 	for i := range tc.Objects {
-		backing[i] = cpObject(tc.Objects[i])
+		backing[i] = tc.Objects[i]
+		backing[i].Card = padCard(tc.Objects[i].Card, &guards)
 	}
 	backing[n], backing[n+1] = sentinel(), sentinel()
 	work := backing[:n]
@@ -266,7 +299,14 @@ func run(tc *tcase) *observation {
 		}
 	}
 	s := sentinel()
-	o.sliceModified = !eqObject(&backing[n], &s) || !eqObject(&backing[n+1], &s)
+	if !eqObject(&backing[n], &s) || !eqObject(&backing[n+1], &s) {
+		o.sliceModified = "objects"
+	}
+	for i := range guards {
+		if o.sliceModified == "" && !guards[i].ok() {
+			o.sliceModified = guards[i].what
+		}
+	}
 	return o
 }
 
@@ -296,7 +336,7 @@ func projOutOfDomain(q *carddav.AddressBookQuery, objs []carddav.AddressObject) 
 		return false
 	}
 	for i := range objs {
-		if _, ok := objs[i].Card["VERSION"]; !ok {
+		if !hasField(objs[i].Card, "VERSION") {
 			return true
 		}
 	}
@@ -315,8 +355,9 @@ func judge(tc *tcase, o *observation) *judgement {
 	if o.objectModified > 0 {
 		add("object-modified", fmt.Sprintf("object #%d differs from its deep copy after the call", o.objectModified-1), "objects unchanged", "object changed")
 	}
-	if o.sliceModified {
-		add("slice-modified", "memory behind the end of the caller's slice was written", "slice untouched", "spare capacity overwritten")
+	if o.sliceModified != "" {
+		add("backing-array-modified|"+o.sliceModified, "the backing array of the caller's "+o.sliceModified+" slice was written (inside or behind len): a longer list sharing it is no longer intact",
+			"backing array untouched", "backing array overwritten")
 	}
 	q := tc.Query
 	if q != nil && !inDomain(q) {
@@ -461,12 +502,12 @@ func judgeReturned(dr *carddav.AddressDataRequest, got, in *carddav.AddressObjec
 		return &failure{"meta-changed", "ETag or ModTime of a returned object differs from the input object", "same ETag/ModTime", "changed"}
 	}
 	if wholeCard(dr) {
-		if !eqCard(got.Card, in.Card) || got.ContentLength != in.ContentLength {
+		if !eqCardProps(got.Card, in.Card) || got.ContentLength != in.ContentLength {
 			return &failure{"whole-card-altered", "all properties were requested but the returned object differs from the input", "identical object", "altered"}
 		}
 		return nil
 	}
-	if _, ok := in.Card["VERSION"]; !ok {
+	if !hasField(in.Card, "VERSION") {
 		return nil // outside the projection domain
 	}
 	required, optional := projectionModel(dr, in.Card)
@@ -480,8 +521,8 @@ func judgeReturned(dr *carddav.AddressDataRequest, got, in *carddav.AddressObjec
 		}
 	}
 	for k, g := range got.Card {
-		if required[k] {
-			continue
+		if required[k] || !hasField(got.Card, k) {
+			continue // a key without fields is not a property
 		}
 		// tolerated only: a requested name matching a card key up to case
 		ok := false
@@ -580,7 +621,10 @@ func pfSig(pf *carddav.PropFilter, card vcard.Card, withRel bool) string {
 	value := ""
 	if withRel {
 		fields := card[pf.Name]
+		_, keyed := card[pf.Name]
 		switch {
+		case len(fields) == 0 && keyed:
+			sb.WriteString(",key-without-fields")
 		case len(fields) == 0:
 			sb.WriteString(",absent")
 		case len(fields) == 1:
@@ -694,6 +738,9 @@ func matchKeySig(q *carddav.AddressBookQuery, card vcard.Card) string {
 	}
 	fields := card[pf.Name]
 	if len(fields) == 0 || fields[0] == nil {
+		if _, keyed := card[pf.Name]; keyed {
+			out += ",key-without-fields"
+		}
 		return out + ",absent,text-matches=" + capN(len(pf.TextMatches), 3) + "]"
 	}
 	if len(fields) > 1 {
@@ -754,6 +801,9 @@ func candidates(tc *tcase) []*tcase {
 			i := i
 			add(func(t *tcase) { t.Objects = append(t.Objects[:i], t.Objects[i+1:]...) })
 		}
+	}
+	if len(tc.PropsTail) > 0 {
+		add(func(t *tcase) { t.PropsTail = nil })
 	}
 	if q := tc.Query; q != nil {
 		for i := range q.PropFilters {
@@ -977,7 +1027,11 @@ func coarseSig(q *carddav.AddressBookQuery, card vcard.Card) string {
 	if len(q.PropFilters) == 1 && card != nil {
 		pf := &q.PropFilters[0]
 		fields := card[pf.Name]
-		fmt.Fprintf(&sb, "|%s,ind=%v,n=%s", testClass(string(pf.Test)), pf.IsNotDefined, capN(len(fields), 2))
+		n := capN(len(fields), 2)
+		if _, keyed := card[pf.Name]; keyed && len(fields) == 0 {
+			n = "key-without-fields"
+		}
+		fmt.Fprintf(&sb, "|%s,ind=%v,n=%s", testClass(string(pf.Test)), pf.IsNotDefined, n)
 		for k := range pf.TextMatches {
 			if k == 2 {
 				sb.WriteString(",+" + capN(len(pf.TextMatches)-2, 2))
@@ -1057,7 +1111,7 @@ func abstractKey(tc *tcase, j *judgement) string {
 }
 
 // exec runs one case, applies the oracle, records evidence, and reports.
-func (k *checker) exec(tc *tcase, universe string) {
+func (k *checker) exec(tc *tcase, universe string) *observation {
 	o := run(tc)
 	j := judge(tc, o)
 	k.evals++
@@ -1086,6 +1140,13 @@ func (k *checker) exec(tc *tcase, universe string) {
 		k.tally("domain", "inside")
 		if tc.Kind == "match" {
 			k.tally("model_value", j.sets[0].String())
+			for i := range tc.Query.PropFilters {
+				name := tc.Query.PropFilters[i].Name
+				if fields, keyed := tc.Objects[0].Card[name]; keyed && len(fields) == 0 {
+					k.tally("filtered_property_is_key_without_fields", fmt.Sprintf("is-not-defined=%v observed=%v", tc.Query.PropFilters[i].IsNotDefined, o.val))
+					break
+				}
+			}
 			if hasUnknownEnum(tc.Query) && j.sets[0]&vB == 0 {
 				if o.err != nil {
 					k.tally("unknown_enum_not_deciding", "implementation reported it")
@@ -1097,6 +1158,9 @@ func (k *checker) exec(tc *tcase, universe string) {
 			k.tally("filter_limit_class", limitClass(tc.Query.Limit, len(tc.Objects)))
 			k.tally("filter_projection_class", projClass(tc.Query))
 			k.tally("filter_list_len", capN(len(tc.Objects), 8))
+			if len(tc.PropsTail) > 0 {
+				k.tally("props_shares_backing_array_with_longer_list", fmt.Sprintf("len=%s tail=%s", capN(len(tc.Query.DataRequest.Props), 3), capN(len(tc.PropsTail), 3)))
+			}
 		}
 		if j.decided {
 			k.tally("verdict_demanded", "yes")
@@ -1122,10 +1186,10 @@ func (k *checker) exec(tc *tcase, universe string) {
 		}
 		k.c.Sample(s)
 	}
-	if len(j.fails) == 0 {
-		return
+	if len(j.fails) > 0 {
+		k.report(tc, j)
 	}
-	k.report(tc, j)
+	return o
 }
 
 func (k *checker) report(tc *tcase, j *judgement) {
